@@ -54,6 +54,8 @@ SeqToSet(s) == {s[i] : i \in DOMAIN s}
 RECURSIVE SumSeq(_)
 SumSeq(s) == IF s = <<>> THEN 0 ELSE Head(s) + SumSeq(Tail(s))
 
+AnyRun == <<"run", <<"rep", <<"any">>, 0, Inf>>>>       \* any().repeated() used as a parser (lazy)
+
 ---------------------------------------------------------------------------
 (* Output values: tagged tuples, tag first. *)
 VU == <<"U">>                                  \* () -- also the value of everything in Check mode
@@ -103,6 +105,14 @@ Pred(p, v) ==
     [] p = "nfa" -> FirstTok(v) # "a"
     [] p = "fa" -> FirstTok(v) = "a"
 
+(* user mappers: symbolic (VM(f, v)) except the few that compute *)
+TokNum(t) == CASE t = "a" -> 1 [] t = "b" -> 2 [] t = "c" -> 3 [] OTHER -> 0
+MapFn(f, v) ==
+  CASE f = "num" -> VI(TokNum(FirstTok(v)))                     \* token -> number (length prefixes)
+    [] f = "fst" -> IF v[1] = "P" THEN v[2] ELSE VM(f, v)         \* |(a, _)| a
+    [] f = "snd" -> IF v[1] = "P" THEN v[3] ELSE VM(f, v)         \* |(_, b)| b
+    [] OTHER -> VM(f, v)
+
 (* sinks of collect *)
 Sink(sink, items) ==
   CASE sink = "vec" -> VL(items)
@@ -142,6 +152,7 @@ CanEmpty(g) ==
     [] o = "andis" -> CanEmpty(g[2])
     [] o \in {"map", "to", "ignored", "filter", "trymap", "trymapw", "validate", "mw",
               "tospan", "toslice", "boxed", "memo", "label", "maperr", "rec", "withstate"} -> CanEmpty(g[2])
+    [] o = "lazy" -> TRUE
     [] o = "rep" -> g[3] = 0 \/ CanEmpty(g[2])
     [] o = "sep" -> g[4] = 0 \/ CanEmpty(g[2])
     [] o \in {"enum", "cfgrep"} -> TRUE
@@ -180,7 +191,7 @@ WF(g) ==
     [] o = "padded" -> WF(g[2]) /\ WF(g[3])
     [] o \in {"group", "grouparr", "choice", "choicev"} -> AllWF(g[2])
     [] o \in {"ornot", "not", "rewind", "map", "to", "ignored", "filter", "trymap", "trymapw", "validate", "mw",
-              "tospan", "toslice", "boxed", "memo", "label", "maperr", "rec", "withstate"} -> WF(g[2])
+              "tospan", "toslice", "boxed", "memo", "label", "maperr", "rec", "withstate", "lazy"} -> WF(g[2])
     [] o \in {"collect", "run", "exact"} -> WFIter(g[2])
     [] o = "foldl" -> WF(g[2]) /\ WFIter(g[3])
     [] o = "foldr" -> WFIter(g[2]) /\ WF(g[3])
@@ -201,7 +212,7 @@ HasOp(g, ops) ==
        [] o = "delim" -> HasOp(g[2], ops) \/ HasOp(g[3], ops) \/ HasOp(g[4], ops)
        [] o \in {"group", "grouparr", "choice", "choicev"} -> AnyHasOp(g[2], ops)
        [] o \in {"ornot", "not", "rewind", "map", "to", "ignored", "filter", "trymap", "trymapw", "validate", "mw",
-                 "tospan", "toslice", "boxed", "memo", "label", "maperr", "rec", "withstate",
+                 "tospan", "toslice", "boxed", "memo", "label", "maperr", "rec", "withstate", "lazy",
                  "collect", "run", "exact", "rep", "enum", "cfgrep"} -> HasOp(g[2], ops)
        [] o = "sep" -> HasOp(g[2], ops) \/ HasOp(g[3], ops)
        [] o \in {"foldl", "foldr"} -> HasOp(g[2], ops) \/ HasOp(g[3], ops)
